@@ -95,7 +95,9 @@ TMutatePrior ==
     /\ LET o == [slots |-> ToSlots(Ev.slots), dEvals |-> Ev.dEvals, calls |-> Ev.calls,
                  nInf |-> Ev.nInf, zInHull |-> Ev.zInHull, logz |-> Ev.logz] IN
        /\ MutatePriorU(o)
-       /\ Step(Failing(PcOk(pc = "resampled" /\ beta = 0) @@ MP_Clauses(o)))
+       \* the beta = 0 branch of the mutation step (fresh prior draws) is taken only at temperature EXACTLY 0: at any positive
+       \* temperature, however small, the particles are moved by the MCMC kernel that leaves L^beta x prior invariant
+       /\ Step(Failing(PcOk(pc = "resampled") @@ [MP_OnlyAtZero |-> beta = 0] @@ MP_Clauses(o)))
 
 TMutateBegin ==
     /\ IsEvent("MutateBegin")
